@@ -13,5 +13,6 @@ func init() {
 		NoFab(c, "R-NOFAB", fns, 25)
 		LockClosures(c, "R-LOCK", fns, 4)
 		NextGuard(c, "R-NEXTGUARD", libPkgs(c))
+		PanicSafeLock(c, "R-PANICSAFE", fns, 4)
 	})
 }
